@@ -7,7 +7,7 @@ import warnings
 import numpy as np
 from hypothesis import strategies as st
 
-from .. import cards, configs, run
+from .. import basis, cards, configs, run
 from ..engine import Verdict, YadismError
 
 ID = "C08"
@@ -17,12 +17,17 @@ RULE = (
     "CC: F2, FL, F3}, heavyness {heavy flavour, light (missing), total}, PTO 0-2 and a ladder xi=Q2/m2 = 1e2,1e3,1e4,1e5,1e6 plus a "
     "generated intermediate value; FFNS and FFN0 are run on the same card. Oracle per order key and operator entry: "
     "D(xi) = max|O_FFNS - O_FFN0| / S with S = max(|O_FFN0 entries| at that xi, LO F2 parton-model entries) must satisfy "
-    "D(xi) <= A_o (1+ln xi)^(2o)/xi + 2e-4 with A = (30, 10, 1) and D(1e6) <= 0.05 max(D(1e2), 2e-3). Requests the massive library "
+    "D(xi) <= P (1+ln xi)^(2o)/xi + 2e-4 with P = max(kappa A_o, 3 D(1e2) 1e2/(1+ln 1e2)^(2o)), A = (30, 10, 1), kappa = max(1, (1+G)/3), G = max_j |dp_j/dln x| of the grid's basis next to x, and D(1e6) <= 0.05 max(D(1e2), 2e-3). Requests the massive library "
     "refuses ('high virtuality limit not known') are rejections. Non-trivial = FFNS and FFN0 tensors non-zero and different at xi=1e2."
 )
 ASSUMPTIONS = [
     "envelope constants calibrated on the tree: measured prefactors 3.1 (LO), <=0.9 (NLO), <=0.03 (NNLO) - margins 10x-30x; the floor "
     "2e-4 covers LeProHQ/quadrature noise at xi=1e6 (measured 7e-5)",
+    "the prefactor of the power law belongs to the grid: massive kernels of the heavy quark's own rows and of CC are evaluated at x(1+O(1/xi)), "
+    "so at fixed xi the operators differ by (1+G)/xi with G the logarithmic derivative of the basis functions (up to 75 for degree-5 blocks at the "
+    "grid edge or linear-mode grids near x=0.7), and basis functions that probe small z see larger coefficients of the power correction - the prefactor "
+    "therefore scales with kappa and is never smaller than three times the one observed at xi=1e2; what is asserted is the fall-off from there. The first "
+    "version used constants and raised three false alarms in the first thorough run over the extended x range",
     "limit relation: detects wrong powers, logarithms and O(1%) coefficient errors, not digit-level changes",
     "domain as in the property's quantifier: NC F2/FL, g1 where LeProHQ allows, CC F2/FL/F3 (NC F3, g4, gL have no asymptotic counterpart)",
 ]
@@ -86,6 +91,20 @@ def row_class(delta, hq):
     return "q-singlet" if max(light) - min(light) <= 1e-6 * max(light) else "q-nonsinglet"
 
 
+def steepness(b, x):
+    """max_j |dp_j/dln u| for u between x and the most shifted convolution point of the ladder (x(1+1/xi), xi=100): the massive
+    kernels of the heavy quark's own rows and of CC are evaluated at such shifted points, so at fixed xi the difference to the
+    asymptotic operator is (1+G)/xi times the operator - the prefactor of the power law belongs to the grid, not to the code"""
+    g = 0.0
+    for u in (x, x * 1.0025, x * 1.005, x * 1.01):
+        if u >= 1.0:
+            continue
+        h = 1e-6
+        up, dn = b.all_p(min(u * (1 + h), 1.0)), b.all_p(u * (1 - h))
+        g = max(g, float(np.max(np.abs(up - dn))) / (2 * h))
+    return g
+
+
 def eta_region(x, xi):
     """bucket suffix for points whose integration range reaches partonic eta = xi/4 (1/z-1) - 1 > 1e8 (z down to x)"""
     return ":eta>1e8" if xi / 4.0 * (1.0 / x - 1.0) - 1.0 > 1e8 else ""
@@ -99,6 +118,10 @@ def check_case(case):
     name, kind, pto, x, m = meta["name"], meta["kind"], meta["pto"], case["x"], case["m"]
     hv = meta["heavyness"]
     xis = sorted(set(LADDER + [case["xi_extra"]]))
+    bas = basis.Basis(ob["interpolation_xgrid"], ob["interpolation_polynomial_degree"], ob["interpolation_is_log"])
+    kappa = max(1.0, (1.0 + steepness(bas, x)) / 3.0)
+    if kappa > 3.0:
+        v.label("steep-basis")
     kin = [{"x": x, "Q2": xi * m * m} for xi in xis]
     f2name = f"F2_{hv}"
     ob["observables"] = {name: kin}
@@ -122,32 +145,45 @@ def check_case(case):
     nontrivial = False
     for o in range(pto + 1):
         v.label(f"order:{o}")
-        ds, rc = {}, {}
+        ds, rc, ab = {}, {}, {}
         for i, xi in enumerate(xis):
             a = run.tensors(r_ffns[i])[(o, 0, 0, 0)]
             b = run.tensors(r_ffn0[i])[(o, 0, 0, 0)]
             s = max(run.maxabs(b), run.maxabs(run.tensors(lo[i])[(0, 0, 0, 0)]), 1e-300)
-            d = run.maxabs(a - b) / s
-            ds[xi] = d
-            if xi in (1e2, 1e6) or d > A[o] * (1.0 + math.log(xi)) ** (2 * o) / xi + FLOOR:
-                rc[xi] = row_class(a - b, 4 if case["h"] == "charm" else 5)
-            env_ = A[o] * (1.0 + math.log(xi)) ** (2 * o) / xi + FLOOR
+            ds[xi] = run.maxabs(a - b) / s
+            ab[xi] = (a, b)
+            if xi == 1e2 and ds[xi] > 0 and run.maxabs(a) > 0 and run.maxabs(b) > 0:
+                nontrivial = True
+        shape = lambda xi: (1.0 + math.log(xi)) ** (2 * o) / xi  # noqa: E731
+        # prefactor of the power law: the calibrated constant, scaled with the steepness of the basis, or three times the one
+        # observed at the lower end of the ladder - whichever is larger (it belongs to the grid and the z range a basis
+        # function probes; the property is the fall-off from there)
+        pref = max(kappa * A[o], 3.0 * ds[1e2] / shape(1e2))
+        hv_ = "heavy" if hv == case["h"] else hv
+        proc_ = "NC" if meta["process"] != "CC" else "CC"
+        hq_ = 4 if case["h"] == "charm" else 5
+        failed = False
+        for xi in xis:
+            d = ds[xi]
+            env_ = pref * shape(xi) + FLOOR
             v.metric(f"envelope:o{o}", d / env_)
             if not d <= env_:
+                rcl = row_class(ab[xi][0] - ab[xi][1], hq_)
                 v.fail(
-                    f"C08:limit:{'NC' if meta['process'] != 'CC' else 'CC'}:{kind}:{'heavy' if hv == case['h'] else hv}:order{o}:{rc[xi]}{eta_region(x, xi)}",
-                    f"{name} ({meta['process']}, {case['h']} massive, m={m}) x={x}: |FFNS-FFN0|/S = {d:.3e} at Q2/m2={xi:.3g}, order {o}; allowed {env_:.3e}; profile { {f'{k:.0e}': float(f'{val:.2e}') for k, val in ds.items()} }",
+                    f"C08:limit:{proc_}:{kind}:{hv_}:order{o}:{rcl}{eta_region(x, xi)}",
+                    f"{name} ({meta['process']}, {case['h']} massive, m={m}) x={x}: |FFNS-FFN0|/S = {d:.3e} at Q2/m2={xi:.3g}, order {o}; allowed {env_:.3e} "
+                    f"(prefactor {pref:.3g}); profile { {f'{k:.0e}': float(f'{val:.2e}') for k, val in ds.items()} }",
                 )
+                failed = True
                 break
-            if xi == 1e2 and d > 0 and run.maxabs(a) > 0 and run.maxabs(b) > 0:
-                nontrivial = True
-        else:
+        if not failed:
             d2, d6 = ds[1e2], ds[1e6]
             lim = 0.05 * max(d2, 2e-3)
             v.metric(f"decay:o{o}", d6 / lim)
             if not d6 <= lim:
+                rcl = row_class(ab[1e6][0] - ab[1e6][1], hq_)
                 v.fail(
-                    f"C08:decay:{'NC' if meta['process'] != 'CC' else 'CC'}:{kind}:{'heavy' if hv == case['h'] else hv}:order{o}:{rc[1e6]}{eta_region(x, 1e6)}",
+                    f"C08:decay:{proc_}:{kind}:{hv_}:order{o}:{rcl}{eta_region(x, 1e6)}",
                     f"{name} ({meta['process']}, {case['h']} massive, m={m}) x={x}: |FFNS-FFN0|/S does not decay: {d2:.3e} at Q2/m2=1e2, {d6:.3e} at 1e6 (order {o})",
                 )
     v.nontrivial = nontrivial
